@@ -1,2 +1,6 @@
-import SV.Props.C10
 import SV.Props.C01
+import SV.Props.C02
+import SV.Props.C04
+import SV.Props.C05
+import SV.Props.C10
+import SV.Props.C11
